@@ -62,6 +62,8 @@ type Engine struct {
 	Decls    map[*types.Func]*ast.FuncDecl
 	Policy   Policy
 	nextID   int
+	// spawnDepth > 0 while the body of a function started with `go` is walked: values built meanwhile are marked InGo
+	spawnDepth int
 	consts   map[string]*Val
 	pure     map[string]*Val
 	pureList []*Val
@@ -99,7 +101,7 @@ func New(pkg *packages.Package, pol Policy) *Engine {
 
 func (e *Engine) newVal(k Kind, t types.Type, pos token.Pos) *Val {
 	e.nextID++
-	v := &Val{ID: e.nextID, Kind: k, Type: t, Pos: pos}
+	v := &Val{ID: e.nextID, Kind: k, Type: t, Pos: pos, InGo: e.spawnDepth > 0}
 	if e.Vals == nil {
 		e.Vals = map[int]*Val{}
 	}
@@ -1065,7 +1067,10 @@ func (e *Engine) execGo(st *State, s *ast.GoStmt) []*State {
 		cp.frame = spawn
 		cc := *c
 		cc.st = cp
-		for _, o := range e.invoke(cp, &cc, false, true) {
+		e.spawnDepth++
+		outs := e.invoke(cp, &cc, false, true)
+		e.spawnDepth--
+		for _, o := range outs {
 			p := &Path{Events: o.st.Events[base:], Trace: o.st.Trace, Unsup: o.st.Unsup, st: o.st, Panic: o.st.ctrl == cPanic}
 			ev.Sub = append(ev.Sub, p)
 		}
